@@ -106,6 +106,58 @@ def session (prg : BitVec 128 → Nat) (labels : List (BitVec 128)) (xs ys : Lis
       | .error e => .error e
       | .ok us => .ok ⟨rs, us, ymsg, umsg⟩
 
+/-! ### Several `Mul` calls on one Sender / Receiver pair
+
+`vole.Sender` and `vole.Receiver` hold `oti`, `conn` and the IKNP endpoint;
+neither `Mul` stores anything in them.  The only thing that changes between
+calls is the position in the IKNP key streams (`ot.IKNPSender.g0`,
+`ot.IKNPReceiver.g0/g1`: AES-CTR streams that every call reads further):
+`IKNPReceiver.receive` consumes `byteRows = (rows+7)/8` bytes of every column
+stream per chunk of `rows ≤ 512` rows, so a call of length `m` advances the
+row position by `m` rounded up to a multiple of 8 (full chunks are multiples
+of 8) and — the receiver's flags being all false — the sender's labels of
+that call are rows `pos … pos+m-1` of the row stream `cot`.  The row stream
+(a function of the base-OT keys) is a parameter. -/
+
+/-- One `Mul` call: both parties' inputs and the modulus. -/
+structure Call where
+  xs : List Nat
+  ys : List Nat
+  p : Nat
+  deriving Repr, DecidableEq
+
+/-- Everything a Sender/Receiver pair carries from one `Mul` to the next. -/
+structure St where
+  pos : Nat
+  deriving Repr, DecidableEq
+
+/-- `m` rounded up to a multiple of 8 (`byteRows * 8`). -/
+def roundUp8 (m : Nat) : Nat := (m + 7) / 8 * 8
+
+/-- The labels `iknp.Send(m, false)` returns at row position `pos`. -/
+def callLabels (cot : Nat → BitVec 128) (pos m : Nat) : List (BitVec 128) :=
+  (List.range m).map fun i => cot (pos + i)
+
+/-- One `Mul` on both sides in state `st`. -/
+def mulStep (prg : BitVec 128 → Nat) (cot : Nat → BitVec 128) (st : St) (c : Call) :
+    Except VoleErr (St × Session) :=
+  match session prg (callLabels cot st.pos c.xs.length) c.xs c.ys c.p with
+  | .error e => .error e
+  | .ok s => .ok (⟨st.pos + roundUp8 c.xs.length⟩, s)
+
+/-- A history of `Mul` calls on one pair; stops at the first failing call (the
+connection is dead after an error). -/
+def runCalls (prg : BitVec 128 → Nat) (cot : Nat → BitVec 128) : St → List Call →
+    Except VoleErr (St × List Session)
+  | st, [] => .ok (st, [])
+  | st, c :: cs =>
+    match mulStep prg cot st c with
+    | .error e => .error e
+    | .ok (st', s) =>
+      match runCalls prg cot st' cs with
+      | .error e => .error e
+      | .ok (st'', ss) => .ok (st'', s :: ss)
+
 /-! ### The executed PRG -/
 
 /-- Big-endian value of a byte array (`big.Int.SetBytes`). -/
